@@ -59,9 +59,10 @@ fn pre2023_text(trades: &[&Trade]) -> String {
     for t in trades {
         let principal = Decimal::from_str(&t.price).unwrap() * Decimal::from(t.shares);
         s += &format!("{} {} 61 {} SELL {} ${} Stock Plan PRINCIPAL ${}\n", mdy_short(t.td), mdy_short(t.sd), t.sym, t.shares, t.price, money(&principal.to_string()));
-        // the supported layout always carries the COMMISSION line (the FEE line is optional)
-        s += &format!("{} SYSTEMS INCCOM COMMISSION ${}\n", t.sym, if t.commission == "0" { "0.00" } else { t.commission.as_str() });
-        if t.fee != "0" { s += &format!("FEE ${}\n", t.fee); }
+        // the supported layouts (fixtures): the company line carries the first charge - COMMISSION, followed by an optional FEE line,
+        // or FEE alone when there is no commission
+        if t.commission == "0" && t.fee != "0" { s += &format!("{} SYSTEMS INCCOM FEE ${}\n", t.sym, t.fee); }
+        else { s += &format!("{} SYSTEMS INCCOM COMMISSION ${}\n", t.sym, if t.commission == "0" { "0.00" } else { t.commission.as_str() }); if t.fee != "0" { s += &format!("FEE ${}\n", t.fee); } }
         s += &format!("NET AMOUNT ${}\n\n", money(&principal.to_string()));
     }
     s += "237 9984 PBA 18397 1of1CEDLV AFPEDLV 16/02/22 21:40 001JOHN DOE\nCANADA\n";
@@ -119,7 +120,7 @@ pub fn scenario_strategy() -> BoxedStrategy<Scenario> {
                     let d_off = if benefits[first_new].kind == "ESO" { 0 } else { d_off };
                     let td = date + Duration::days(d_off);
                     let price = sp + dp;
-                    trades.push(Trade { sym: sym.clone(), td, sd: td + Duration::days(lag), shares: n, price: format!("{}.{:02}", price.max(100) / 100, price.max(100) % 100), commission: if p % 2 == 0 { "4.95".into() } else { "0".into() }, fee: if p % 3 == 0 { "0.28".into() } else { "0".into() }, file: 0 });
+                    trades.push(Trade { sym: sym.clone(), td, sd: td + Duration::days(lag), shares: n, price: format!("{}.{:02}", price.max(100) / 100, price.max(100) % 100), commission: if (dp.rem_euclid(7) + p as i64) % 2 == 0 { "4.95".into() } else { "0".into() }, fee: if dp.rem_euclid(3) != 0 { "0.28".into() } else { "0".into() }, file: 0 });
                     group.push(trades.len() - 1);
                 }
                 pre_groups.push(group);
